@@ -378,6 +378,23 @@ def validate_traces(ctx, spec, cfg, traces, max_reject=6, chunk=4000, label=None
     return accepted, rejected
 
 
+def assert_rejects(ctx, spec, cfg, corrupted_traces, what):
+    """Binding self-check: traces that were accepted and then had one recorded field corrupted
+    must be rejected by the trace spec; otherwise the trace spec does not constrain that field
+    (an infrastructure problem, never a verdict).  Does not count towards evidence totals."""
+    n = 0
+    for t in corrupted_traces:
+        path = os.path.join(ctx.work, "corrupt-%s-%d.ndjson" % (spec, n))
+        write_ndjson(path, t)
+        ok, info = tlc_trace(ctx, spec, cfg, path, name="corrupt-%s" % spec)
+        if ok:
+            raise Infra("binding self-check failed: corrupted trace (%s) was accepted by %s: %s" % (what, spec, t))
+        n += 1
+    ctx.cov.setdefault("binding_selfchecks", [])
+    ctx.cov["binding_selfchecks"].append("%d corrupted trace(s) rejected: %s" % (n, what))
+    log("binding self-check: %d corrupted trace(s) rejected by %s (%s)" % (n, spec, what))
+
+
 # ---------------------------------------------------------------------------
 # Go harness
 # ---------------------------------------------------------------------------
